@@ -376,6 +376,9 @@ func histDigest(h hist) uint64 {
 // reflection hooks; state comparisons are then skipped (outputs are still compared, the run is capped).
 var stateHook = true
 
+// missingField names the components (pos, posBegin, curFlags) that cannot be read any more; they are not compared.
+var missingField = map[string]bool{}
+
 // observe compares the real state of o with its reference twin and records the state key.
 func (x *exec) observe(o *tracked, after string) {
 	if !stateHook {
@@ -388,6 +391,15 @@ func (x *exec) observe(o *tracked, after string) {
 	}
 	st, pos, pb, cf, r, ini := strobe.VerifFields(s)
 	rs := o.refStrobe()
+	if missingField["pos"] {
+		pos = rs.Pos
+	}
+	if missingField["posBegin"] {
+		pb = rs.PosBegin
+	}
+	if missingField["curFlags"] {
+		cf = rs.CurFlags
+	}
 	if *st != rs.St || pos != rs.Pos || pb != rs.PosBegin || cf != rs.CurFlags || r != rs.R || !ini {
 		what := "sponge bytes"
 		switch {
